@@ -11,6 +11,7 @@ import (
 	"fmt"
 	"os"
 	"path/filepath"
+	"runtime"
 	"sort"
 	"strconv"
 	"strings"
@@ -66,6 +67,11 @@ type Run struct {
 	// replaySite: checks without a case-level replay re-run their (deterministic) enumeration under --replay
 	// and report only the recorded site
 	replaySite string
+
+	curClass, curCase string
+	curRep            any
+	curStart          time.Time
+	guardOn           bool
 
 	job         string
 	autoSamples []any
@@ -195,6 +201,75 @@ func (r *Run) Eval(key string, nontrivial bool) {
 }
 
 func (r *Run) Evals() int64 { r.mu.Lock(); defer r.mu.Unlock(); return r.evals }
+
+// Recover (deferred in a check's main) turns a panic of the check itself into a violation: on the unchanged
+// tree the checks do not panic, so a panic means the library handed back something the check's reading of the
+// statement has no place for (nil where a value or an error was promised, an index out of any promised range).
+func (r *Run) Recover() {
+	if p := recover(); p != nil {
+		buf := make([]byte, 1<<16)
+		n := runtime.Stack(buf, false)
+		msg := fmt.Sprint(p)
+		r.Violation("check-could-not-interpret-the-answer|"+MsgClass(msg), fmt.Sprintf("the check panicked while judging what the library returned (%s); on the unchanged tree this does not happen:\n%s", msg, head(string(buf[:n]), 1500)),
+			map[string]any{"panic": msg, "case": r.curCase})
+		r.Truncated("stopped: the check could not interpret an answer of the library")
+		r.Finish()
+	}
+}
+
+func head(s string, n int) string {
+	if len(s) > n {
+		return s[:n]
+	}
+	return s
+}
+
+// Begin announces the case the check is about to hand to the library. If the library does not come back
+// within limit (a loop that never ends), the guard reports the case as a violation ("hangs|<class>") and ends
+// the run with exit 1 - a check that hangs forever reports nothing. The limit is far above what any case
+// needs (microseconds to milliseconds), so machine load cannot trip it; it is not a performance oracle.
+func (r *Run) Begin(class, caseID string, rep any) {
+	r.mu.Lock()
+	r.curClass, r.curCase, r.curRep, r.curStart = class, caseID, rep, time.Now()
+	start := !r.guardOn
+	r.guardOn = true
+	r.mu.Unlock()
+	if start {
+		limit := 10 * time.Minute
+		if v, err := time.ParseDuration(os.Getenv("VERIF_HANG_LIMIT")); err == nil && v > 0 {
+			limit = v // development aid
+		}
+		go r.guard(limit)
+	}
+}
+
+// End: the announced case returned.
+func (r *Run) End() {
+	r.mu.Lock()
+	r.curCase = ""
+	r.mu.Unlock()
+}
+
+func (r *Run) guard(limit time.Duration) {
+	for {
+		time.Sleep(5 * time.Second)
+		r.mu.Lock()
+		stuck := r.curCase != "" && time.Since(r.curStart) > limit
+		class, id, rep := r.curClass, r.curCase, r.curRep
+		r.mu.Unlock()
+		if !stuck {
+			continue
+		}
+		if r.job != "" {
+			// worker process: die loudly, the master attributes the death to the announced case
+			fmt.Fprintf(os.Stderr, "fatal error: the library did not return from case %q within %v\n", id, limit)
+			os.Exit(3)
+		}
+		r.Violation("hangs|"+class, fmt.Sprintf("%s: the library did not return within %v (a loop that does not end); the run stops here", id, limit), rep)
+		r.Truncated("stopped at a call that never returned")
+		r.Finish()
+	}
+}
 
 // Outcome counts a distinct observed outcome class (vacuity guard).
 func (r *Run) Outcome(class string) {
